@@ -94,13 +94,11 @@ pub trait AggValidFinal<T: IsNone>: Vec1View<T> {
             let corr: f64 = self
                 .titer()
                 .vcorr_pearson(self.titer().vshift(life as i32, None), min_periods);
-            if corr < 0.5 {
-                (last_n, n) = (last_n, life);
-            } else if corr > 0.5 {
-                (last_n, n) = (life, n);
+            if corr > 0.5 {
+                last_n = life;
             } else {
+                // not above 0.5 (below, exactly 0.5 or undefined): same rule as the doubling search
                 n = life;
-                break;
             }
         }
         n
